@@ -49,7 +49,8 @@ VDIMS = {2: ("p", "q"), 3: ("mx", "my", "mz"), 4: ("a0", "a1", "a2", "a3")}
 CLAUSE = {"integrate_all": "C06_VolumeIsSum", "integrate_dir": "C06_DirectionalOnReducedMesh",
           "integrate_cum": "C06_CumulativeHalfCell", "chains": "C06_Fubini", "mean_all": "C06_MeanIsIntegralOverExtent",
           "mean_dir": "C06_MeanIsIntegralOverExtent", "mean_seqs": "C06_MeanIsIntegralOverExtent",
-          "linear": "C06_Linear", "translated": "C06_TranslationInvariant", "component": "C06_PerComponent"}
+          "linear": "C06_Linear", "translated": "C06_TranslationInvariant", "component": "C06_PerComponent",
+          "rescaled": "C06_AfterInplaceScale"}
 OP_CLAUSE = {"all": "C06_VolumeIsSum", "dir": "C06_DirectionalOnReducedMesh", "cum": "C06_CumulativeHalfCell",
              "chain": "C06_Fubini", "mean_all": "C06_MeanIsIntegralOverExtent", "mean_dir": "C06_MeanIsIntegralOverExtent",
              "mean_seq": "C06_MeanIsIntegralOverExtent"}
@@ -74,11 +75,18 @@ def vdims_of(m, nv):
     return None
 
 
+_R_DTYPE = [None]   # dtype the R channel hands to the constructor for the state at hand (None / int), see exec_state
+
+
 def make_field(df, m, emb, arr, names, units, vdims, dtype=None):
     mesh = lat.mesh_of(df, m, emb, dims=list(names), units=list(units))
     nv = len(arr[0])
+    dtype = dtype or _R_DTYPE[0]
     a = fld.unflatten(arr, m["n"], dtype=dtype or float)
-    return df.Field(mesh, nvdim=nv, value=a, vdims=vdims)
+    if dtype is None:
+        return df.Field(mesh, nvdim=nv, value=a, vdims=vdims)
+    # the dtype is also given explicitly (Field.dtype is then set): results must not be cast back to it (seed C06-3)
+    return df.Field(mesh, nvdim=nv, value=a, vdims=vdims, dtype=dtype)
 
 
 # ------------------------------------------------------------------ executing one operation
@@ -269,6 +277,15 @@ WHAT = {
 }
 
 
+def _warm_up(df, f, m, emb, names, obs, S):
+    """read every quantity once before an in-place move of the mesh (results are not judged here)"""
+    for op in sorted(obs):
+        try:
+            run_and_project(df, f, m, emb, names, op, S, False)
+        except Exception:
+            pass
+
+
 def exec_state(df, st, emb, part, arrays):
     m, nv, pat, act, obs = st["mesh"], st["nv"], st["pat"], st["act"], st["obs"]
     nd = len(m["n"])
@@ -277,6 +294,8 @@ def exec_state(df, st, emb, part, arrays):
     vdims = vdims_of(m, nv)
     A, B = arrays[cfg_key(st)]
     dimtag = "1d" if nd == 1 else "nd"
+    # the values are integers: every third (state, embedding) pair uses an integer-dtype field given with dtype=int
+    _R_DTYPE[0] = int if (nd + nv + pat + sum(m["n"]) + len(emb.name) + len(str(act))) % 3 == 0 else None
 
     def report(clause, opn, cond, p, exp, **kw):
         if cond == "raises":
@@ -286,7 +305,7 @@ def exec_state(df, st, emb, part, arrays):
                 cond = "1d-raises"
         part.violation(f"{clause}/{opn}/{cond}", WHAT.get(cond.replace("1d-", ""), cond),
                        dict(mesh=m, nv=nv, pat=pat, act=act, embedding=emb.name, dims=names, units=units, vdims=vdims,
-                            array=A, observed={k: v for k, v in p.items() if k != "units"}, expected=exp, **kw))
+                            array=A, dtype="int" if _R_DTYPE[0] is int else "default", observed={k: v for k, v in p.items() if k != "units"}, expected=exp, **kw))
 
     part.count()
     if kind == "new":
@@ -310,10 +329,23 @@ def exec_state(df, st, emb, part, arrays):
     elif kind == "translated":
         s = act[1]
         f0 = make_field(df, m, emb, A, names, units, vdims)
-        mesh2 = f0.mesh.translate([emb.length(s[d]) for d in range(nd)])
-        f = df.Field(mesh2, nvdim=nv, value=f0.array, vdims=vdims)
         S = scale_of(A)
+        if (pat + nd + nv) % 2 == 0:
+            mesh2 = f0.mesh.translate([emb.length(s[d]) for d in range(nd)])
+            f = df.Field(mesh2, nvdim=nv, value=f0.array, vdims=vdims)
+        else:
+            # a history: every quantity is read once, then the field's own mesh is moved in place, then read again
+            _warm_up(df, f0, m, emb, names, obs, S)
+            f0.mesh.translate([emb.length(s[d]) for d in range(nd)], inplace=True)
+            f = f0
         base = dict(m, lo=[m["lo"][d] + s[d] for d in range(nd)])
+    elif kind == "rescaled":
+        s = act[1]
+        f = make_field(df, m, emb, A, names, units, vdims)
+        S = scale_of(A)
+        _warm_up(df, f, m, emb, names, obs, S)
+        f.mesh.scale(s, reference_point=[emb.x(0)] * nd, inplace=True)
+        base = dict(m, lo=[s * m["lo"][d] for d in range(nd)], c=[s * m["c"][d] for d in range(nd)])
     elif kind == "component":
         f0 = make_field(df, m, emb, A, names, units, vdims)
         f = getattr(f0, f0.vdims[act[1] - 1])
@@ -493,7 +525,7 @@ def run(ctx):
                 if a.startswith("Q") and n[0] == 0:
                     raise core._tlc.MachineryError(f"action {a} never fired")
         # single calls under every embedding; batched states (many calls each) under four rotating ones in thorough
-        batched = {"chains", "mean_seqs", "linear", "translated", "component"}
+        batched = {"chains", "mean_seqs", "linear", "translated", "component", "rescaled"}
         work = []
         for i, s in enumerate(states):
             if ctx.tier == "thorough" and s["act"][0] in batched:
@@ -534,9 +566,10 @@ def replay(ctx, path):
     cand = embs_for("thorough", rp.get("seed", ctx.seed)) + embs_for("quick", rp.get("seed", ctx.seed))
     emb = {e.name: e for e in cand}[w["embedding"]]
     m, nv, names = w["mesh"], w["nv"], tuple(w["dims"])
+    _R_DTYPE[0] = int if w.get("dtype") == "int" else None
     f = make_field(df, m, emb, w["array"], names, tuple(w["units"]), w["vdims"])
     op = tuple(tuple(x) if isinstance(x, list) else x for x in w["op"])
-    if w["act"][0] in ("linear", "translated", "component"):
+    if w["act"][0] in ("linear", "translated", "component", "rescaled"):
         print("batched witness; expected:", json.dumps(w["expected"])[:400], "observed:", json.dumps(w["observed"])[:400])
         return 1
     p = run_and_project(df, f, m, emb, names, op, scale_of(w["array"]))
